@@ -140,6 +140,15 @@ fn post_state<T: ZerokitMerkleTree>(t: &T, touched: &[usize], empties: bool) -> 
             let e = t.get_empty_leaves_indices();
             if e.len() <= EMPTIES_MAX {
                 let _ = write!(s, ",\"empties\":{}", n_list(&e));
+            } else {
+                // a long list is logged as its length and both ends (a list that is long because it is wrong must not go unseen)
+                let _ = write!(
+                    s,
+                    ",\"empties_n\":{},\"empties_head\":{},\"empties_tail\":{}",
+                    e.len(),
+                    n_list(&e[..EMPTIES_MAX / 2]),
+                    n_list(&e[e.len() - EMPTIES_MAX / 2..])
+                );
             }
         }
         s
